@@ -98,8 +98,8 @@ def _worker(arg):
 
 def main(tier: str) -> int:
     run = common.Run(PROP, tier)
-    n_cases = 12 if tier == 'quick' else 80
-    seeds = [0, 1, 2, 3] if tier == 'quick' else list(range(32))
+    n_cases = 12 if tier == 'quick' else 200
+    seeds = [0, 1, 2, 3] if tier == 'quick' else list(range(48))
     cases = gen_cases(run.rng('cases'), n_cases)
     path = os.path.join(run.scratch(), 'cases.json')
     with open(path, 'w', encoding='utf-8') as fh:
